@@ -92,3 +92,39 @@ def f64_mapping_ok(terms, arg):
     nul = Agg(VAR + "::Null")
     terms = set(terms)
     return bool(terms) and all(m(t, num) or m(t, nul) for t in terms) and any(m(t, num) for t in terms) and any(m(t, nul) for t in terms)
+
+
+def f64_decided_by_from_f64(b, o, arg):
+    """What an f64 becomes is decided by Number::from_f64 (None exactly for NaN and the infinities): every return lies after
+    that call, and the only case analysis allowed in front of it is a finiteness test of the value itself (is_finite /
+    is_nan / is_infinite) whose finite side still goes through the call — a guard such as `!is_normal()` would turn
+    subnormal numbers into null while leaving the *set* of possible results as it was."""
+    from .analysis import Branches, blocks_separate
+    calls = {blk for blk, t in b.calls() if t["callee"] == "serde_json::Number::from_f64"}
+    rets = [i for i in sorted(b.reachable()) if b.blocks[i]["term"]["k"] == "return"]
+    if not calls or not rets:
+        return False
+    br = Branches(b, o)
+    for sb, sw in br.switches():
+        if any(b.dominates(c, sb) for c in calls):
+            continue
+        be = br.bool_edges(sb)
+        cs = br.cond(sb)
+        if not be or len(cs) != 1:
+            return False
+        c = next(iter(cs))
+        if not (c[0] == "call" and len(c[2]) == 1 and set(c[2][0]) == {arg}):
+            return False
+        name = c[1]
+        if name.endswith("::is_finite"):
+            finite = be[0]
+        elif name.endswith("::is_nan") or name.endswith("::is_infinite"):
+            finite = be[1]
+        else:
+            return False
+        if not all(blocks_separate(b, calls, r, start=finite) for r in rets):
+            return False
+        # is_nan / is_infinite alone leave the other non-finite class to from_f64, which answers None for it: fine
+    # without a guard: the call separates the entry from every return
+    guards = [sb for sb, sw in br.switches() if not any(b.dominates(c, sb) for c in calls)]
+    return bool(guards) or all(blocks_separate(b, calls, r) for r in rets)
